@@ -289,7 +289,7 @@ SU_vector SU_vector::NegProjector(unsigned int d, unsigned int ii){
   double m_real[d][d]; double m_imag[d][d];
   for(unsigned int i=0; i<d; i++){
     for(unsigned int j=0; j<d; j++){
-      if(d-i<ii)
+      if(d-i<=ii)
         m_real[i][j] = KRONECKER(i,j);
       else
         m_real[i][j] = 0.0;
